@@ -170,6 +170,7 @@ class PathWorld:
         self.base_files = copy.deepcopy(self.files)
         self.write_params()
         self.pos, self.draw_names, self.gid_now, self.k_now, self.runs = 0, {}, 0, 0, 0   # preseed stream (cache.STREAM)
+        self.want_implied = False
 
     # -- inputs -------------------------------------------------------------------------------------
     def write_input(self, inp, size=0, edit=None):
@@ -254,11 +255,13 @@ class PathWorld:
         st, obj = C._load(self.gen / C.GEN_FILES["seeds"])
         out["seeds"] = [int(x) for x in obj] if st == "ok" else st
         # what the configuration implies, read off the stored scenarios (sources file sets its own durations)
-        rules = C.rules_from_vw(sm.virtual_world, source_level=True)
+        # (the rules come from an independent intake of the parameter files: what the user configured)
         out["implied"] = []
-        for i in range(n_sims):
-            st, obj = C._load(self.gen / C.Generator_Files.GEN_INFRA_EMISS.format(i=i))
-            out["implied"].append(C.implied_violations(obj, rules) if st == "ok" else [])
+        if self.want_implied:
+            rules = C.rules_from_vw(self.intake()[0], source_level=True)
+            for i in range(n_sims):
+                st, obj = C._load(self.gen / C.Generator_Files.GEN_INFRA_EMISS.format(i=i))
+                out["implied"].append(C.implied_violations(obj, rules) if st == "ok" else [])
         st, obj = C._load(self.gen / C.GEN_FILES["hashes"])
         out["hashes"] = obj if st == "ok" else st
         return out
